@@ -3,10 +3,11 @@ C38 — the S3 client backend behaves like the storage it forwards to.
 
 Claimed at translation-validation strength: the behavioural claim rests on the differential run
 (lean/Driver/C38.lean). What Lean contributes, over the tables regenerated from the Go source on
-every run (`Pithos.Gen.S3ClientMap`):
-  * the error-kind path storage → server → wire → SDK → client as a total function, the proof that a
-    complete translation is injective on the kinds `S3.Err` distinguishes, and the exact list of
-    (method, kind) pairs the current client does not preserve;
+every run (`Pithos.Gen.S3ClientMap`, `Pithos.Gen.S3ErrorTables`):
+  * the error-kind path storage → server → wire → SDK → client as a total function; that every kind is
+    preserved by the current client for every method the histories observe (`error_kinds_preserved`);
+    that the server's and the client's tables are inverse (`errors_roundtrip_except`,
+    `no_code_two_sentinels`, `delete_markers_roundtrip`);
   * field coverage of the response translations.
 -/
 import Pithos.Model.S3Client
@@ -16,7 +17,7 @@ open Pithos.S3 Pithos.S3Client Pithos.Gen.S3ClientMap
 
 /-- A complete translation is injective on the kinds the endpoint can answer with: two different
 kinds never look the same to the caller, in whichever form the server puts them on the wire of a
-non-HEAD request (every kind has a coded form; `NoSuchKey` and `MethodNotAllowed` also arrive bare). -/
+non-HEAD request (coded body, bodyless 304, or bodyless with the delete-marker header). -/
 theorem ideal_translation_injective :
     ∀ e1 ∈ allKinds, ∀ e2 ∈ allKinds, ∀ w1 ∈ wires genTables e1 false, ∀ w2 ∈ wires genTables e2 false,
       idealClientKind w1 = idealClientKind w2 → e1 = e2 := by decide
@@ -26,16 +27,22 @@ theorem ideal_translation_faithful :
     ∀ e ∈ allKinds, ∀ w ∈ wires genTables e false, idealClientKind w = e := by decide
 
 /-- What no client can do: on a HEAD request a missing key and a missing bucket are the same reply
-(bare 404) — the wire does not carry the distinction. -/
+(bare 404) — the wire does not carry the distinction (the client asks HeadBucket). -/
 theorem head_wire_conflates_missing_key_and_bucket :
-    wires genTables .noSuchKey true = wires genTables .noSuchBucket true := by decide
+    Wire.bare "404" ∈ wires genTables .noSuchKey true ∧ wires genTables .noSuchBucket true = [Wire.bare "404"] := by decide
 
-/-- **The current gaps of the error translation** (code as it is): exactly these (method, kind)
-pairs are not reported as themselves by the client backend. Everything else in
-`observedMethods × relevantKinds` is preserved. The list is checked against the regenerated tables
-on every run; it shrinks as translations are added. -/
-theorem error_kinds_preserved_except :
+/-- **error_kinds_preserved.** Since /repo commit 7a2631f every (method, kind) pair of
+`observedMethods × relevantKinds` is reported as itself by the client backend, in whichever form the
+server puts it on the wire (coded body, bodyless status, delete-marker headers; HEAD requests never
+have a body). Checked against the regenerated tables on every run. -/
+theorem error_kinds_preserved :
     (observedMethods.flatMap fun (m, h) => ((relevantKinds m).filter fun e => !preserved genTables m h e).map fun e => (m, e.toString))
+    = [] := by decide
+
+/-- The client before that commit (`preFixTables`: method-specific clauses only, HeadObject mapping every
+bodyless 404 to a missing bucket): the exact 33 (method, kind) pairs it did not preserve. -/
+theorem preFix_error_kinds_preserved_except :
+    (observedMethods.flatMap fun (m, h) => ((relevantKinds m).filter fun e => !preserved preFixTables m h e).map fun e => (m, e.toString))
     = [("PutBucketVersioningConfiguration", "NoSuchBucket"), ("PutObject", "NoSuchBucket"),
        ("HeadObject", "NoSuchKey"), ("HeadObject", "MethodNotAllowed"),
        ("GetObject", "NoSuchBucket"), ("GetObject", "NoSuchKey"), ("GetObject", "MethodNotAllowed"),
@@ -51,10 +58,40 @@ theorem error_kinds_preserved_except :
        ("DeleteObjectTagging", "NoSuchBucket"), ("DeleteObjectTagging", "NoSuchKey"), ("DeleteObjectTagging", "MethodNotAllowed"),
        ("ListObjects", "NoSuchBucket"), ("ListObjectVersions", "NoSuchBucket")] := by decide
 
-/-- Negation witness: through the client, `HeadObject` of a missing key in an existing bucket is
-reported as a missing bucket. -/
-theorem head_missing_key_reported_as_missing_bucket :
-    roundTrip genTables "HeadObject" true .noSuchKey = [.noSuchBucket] := by decide
+/-- Witness (before the repair): `HeadObject` of a missing key in an existing bucket was reported as a
+missing bucket; now it is reported as a missing key. -/
+theorem head_missing_key :
+    roundTrip preFixTables "HeadObject" true .noSuchKey = [.noSuchBucket] ∧
+    roundTrip genTables "HeadObject" true .noSuchKey = [.noSuchKey] := by decide
+
+/-! ### The server's and the client's tables are inverse to each other -/
+
+open Pithos.Gen.S3ErrorTables in
+/-- **errors_roundtrip.** For every storage sentinel `handleError` can render — with the status and
+S3 error code it writes (a 304 bodyless) — every part of the client that decodes that reply (the
+general `storageErrorsByS3Code`/status translation and every method-specific code clause) yields the
+same sentinel again, and at least one does: `decode (encode e) = e`. The single exception is
+`ErrInvalidBucketName`, whose text — and therefore the code the server writes — is
+"invalid bucket name", which the client's table (key `InvalidBucketName`) does not contain. -/
+theorem errors_roundtrip_except :
+    ((serverEncode.filter fun entry => !roundTrips genTables clientMethodClauses entry).map (·.1))
+    = ["ErrInvalidBucketName"] := by decide
+
+open Pithos.Gen.S3ErrorTables in
+/-- The two delete-marker errors (bodyless, marked by the `x-amz-delete-marker` header the server
+sets) are rebuilt as the same error types. -/
+theorem delete_markers_roundtrip :
+    ∀ entry ∈ Gen.S3ErrorTables.serverBodyless,
+      lookup genTables.deleteMarker entry.2.1 = some entry.1 ∧ entry.2.2.contains "deleteMarkerHeader" = true := by decide
+
+open Pithos.Gen.S3ErrorTables in
+/-- **no_code_two_sentinels.** No S3 error code is decoded to two different sentinels: the keys of the
+general table are distinct, every method-specific clause agrees with the general table where both know
+the code, and the server never writes the same code for two sentinels. -/
+theorem no_code_two_sentinels :
+    (clientDecode.map (·.1)).Nodup ∧
+    (∀ c ∈ clientMethodClauses, ∀ s, lookup clientDecode c.2.1 = some s → s = c.2.2) ∧
+    (serverEncode.map (·.2.2)).Nodup ∧ (serverEncode.map (·.1)).Nodup := by decide
 
 /-! ### Field coverage of the response translations -/
 
